@@ -393,6 +393,28 @@ func runC37(outer *testing.T) func(t rapid.TB, c c37Case, rec *vx.Case) {
 			// ---- receive on the host, bracketed by ledger snapshots
 			h := w.FreshHeight(x.link[ch], 1, relayer)
 			recv := w.BuildRecv(pkt, h, relayer)
+
+			// dry run of the host keeper alone on a throw-away branch of the host state: the
+			// keeper's own per-packet cache context must already give all-or-nothing (core's
+			// RecvPacket additionally discards application writes on error acknowledgements)
+			{
+				dctx, _ := w.Ctx(hostc).CacheContext()
+				db := e.ledgerAt(dctx, hostc, x.lab)
+				_, derr := w.App(hostc).ICAHostKeeper.OnRecvPacket(dctx, pkt.P1)
+				dd := delta(db, e.ledgerAt(dctx, hostc, x.lab))
+				ddesc := fmt.Sprintf("direct HostKeeper.OnRecvPacket of packet %d, allow=%v, msgs=%+v: err=%v, ledger diff %s", pi, allow, p.Msgs, derr, fmtDelta(dd))
+				switch {
+				case derr != nil && len(dd) > 0:
+					vx.Violatef(t, rec, id, "keeper-error-with-state-change", "the keeper returned an error but left writes behind; %s", ddesc)
+				case derr == nil && unauthPos >= 0:
+					vx.Violatef(t, rec, id, "keeper-executed-unauthorized-"+unauthWhy, "message %d is unauthorized; %s", unauthPos, ddesc)
+				case derr == nil && failPos >= 0:
+					vx.Violatef(t, rec, id, "keeper-executed-failing-list", "message %d must fail; %s", failPos, ddesc)
+				case derr == nil && !sameDelta(dd, expDelta):
+					vx.Violatef(t, rec, id, "keeper-effect-not-all-or-nothing", "want %s; %s", fmtDelta(expDelta), ddesc)
+				}
+				rec.Add("keeper_dry_runs", 1)
+			}
 			before := e.ledger(hostc, x.lab)
 			res := w.Deliver(hostc, relayer, recv)
 			after := e.ledger(hostc, x.lab)
